@@ -85,6 +85,7 @@ type hsClient struct {
 	Debug      int  // 0 plain Dialer.Upgrade, 1 DebugDialer (both callbacks), 2 OnRequest only, 3 OnResponse only, 4 plain Dialer.Dial
 	Wrap       bool // Dial paths: the application installs its own WrapConn
 	Reuse      bool // DebugDialer: the same value has already been used for an earlier Dial
+	LiveCtx    bool // Dial paths: the caller's context is a cancellable one that stays alive throughout
 	TLS        bool // wss:// through Dialer.TLSClient: a reversible byte scrambler stands in for the secure layer (Dial paths only)
 	Odd        bool // the extra header has a name net/http refuses (ws.Upgrader hands it to OnHeader like any other)
 }
@@ -535,6 +536,12 @@ func runClientConn(r *eng.Run, c hsClient, p net.Conn, sent func() []byte, restL
 		hs ws.Handshake
 	)
 	var conn io.Reader = p
+	dialCtx := context.Background()
+	if c.LiveCtx {
+		var cancel context.CancelFunc
+		dialCtx, cancel = context.WithCancel(dialCtx)
+		defer cancel()
+	}
 	if c.Debug == 0 {
 		u, err := url.Parse(c.URL)
 		if err != nil {
@@ -572,9 +579,9 @@ func runClientConn(r *eng.Run, c hsClient, p net.Conn, sent func() []byte, restL
 			reseed()
 		}
 		if c.Debug == 4 {
-			nc, br, hs, o.Err = d.Dial(context.Background(), c.URL)
+			nc, br, hs, o.Err = d.Dial(dialCtx, c.URL)
 		} else {
-			nc, br, hs, o.Err = dd.Dial(context.Background(), c.URL)
+			nc, br, hs, o.Err = dd.Dial(dialCtx, c.URL)
 		}
 		if nc != nil {
 			conn = nc
@@ -603,7 +610,7 @@ func runClientConn(r *eng.Run, c hsClient, p net.Conn, sent func() []byte, restL
 			n, err = io.ReadFull(src, rest)
 			rest = rest[:n]
 		}
-		if err != nil && err != ErrInjected {
+		if err != nil && !IsInjected(err) {
 			o.RestErr = err
 		}
 		o.Rest = rest
@@ -866,6 +873,7 @@ func checkWrappers(r *eng.Run, t *hsTrip) {
 // transport chunking.
 func C11(r *eng.Run) {
 	c, s := drawHS(r)
+	c.LiveCtx = c.Debug != 0 && r.T.Chance(sim.LCfg, 1, 4)
 	if c.Debug != 0 && r.T.Chance(sim.LCfg, 1, 4) {
 		c.TLS = true
 		c.URL = "wss" + strings.TrimPrefix(c.URL, "ws")
@@ -962,6 +970,8 @@ func compareOutcome(r *eng.Run, who string, a, b *hsOutcome, what string, t *hsT
 
 func C16Handshake(r *eng.Run) {
 	c, s := drawHS(r)
+	netErr := r.T.Chance(sim.LFault, 1, 3) // injected errors are net.Errors calling themselves timeouts
+	c.LiveCtx = c.Debug != 0 && r.T.Bool(sim.LCfg)
 	httpKind := s.Kind == 1 // request parsing of HTTPUpgrader is net/http's: only its response writes are failed
 	// Keep the enumerated streams short.
 	if len(c.Header) > 200 {
@@ -985,7 +995,7 @@ func C16Handshake(r *eng.Run) {
 			r.T.Rewind()
 			r.Res.FaultPoints++
 			p := pipeFor(r, t.Request, seg)
-			p.CutAt, p.CutKind, p.EOFWithData = k, kind, withData
+			p.CutAt, p.CutKind, p.EOFWithData, p.NetErr = k, kind, withData, netErr
 			o := runServer(r, s, p)
 			r.Fault("handshake_request_cut")
 			if o.Err == nil {
@@ -1005,7 +1015,7 @@ func C16Handshake(r *eng.Run) {
 				r.Res.FaultPoints++
 				rand.Seed(rseed)
 				p := pipeFor(r, t.Server.Written, seg)
-				p.CutAt, p.CutKind, p.EOFWithData = k, kind, withData
+				p.CutAt, p.CutKind, p.EOFWithData, p.NetErr = k, kind, withData, netErr
 				o := runClient(r, c, p)
 				r.Fault("handshake_response_cut")
 				if o.Err == nil {
@@ -1022,7 +1032,7 @@ func C16Handshake(r *eng.Run) {
 		for _, m := range []int{0, 1} {
 			r.Res.FaultPoints++
 			p := pipeFor(r, t.Request, SegAll)
-			p.WFailAt, p.WFailN = j, m
+			p.WFailAt, p.WFailN, p.NetErr = j, m, netErr
 			o := runServer(r, s, p)
 			r.Fault("handshake_response_write_fail")
 			if o.Err == nil {
@@ -1038,7 +1048,7 @@ func C16Handshake(r *eng.Run) {
 			r.Res.FaultPoints++
 			rand.Seed(rseed)
 			p := pipeFor(r, t.Server.Written, SegAll)
-			p.WFailAt, p.WFailN = j, m
+			p.WFailAt, p.WFailN, p.NetErr = j, m, netErr
 			o := runClient(r, c, p)
 			r.Fault("handshake_request_write_fail")
 			if o.Err == nil {
